@@ -474,6 +474,87 @@ func oracleC20Conc(c c20Conc) error {
 	return nil
 }
 
+// ---- long histories: the same input before and after thousands of other distinct inputs in one process ----
+
+type c20Long struct {
+	Sentinels []string `json:"sentinels"`
+	Fill      int      `json:"fill"`
+	Tag       string   `json:"tag"` // makes the filler inputs of this case distinct from those of every other case
+}
+
+func genC20Long(t *rapid.T) c20Long {
+	lists, err := loadC20Lists()
+	if err != nil {
+		panic("harness: " + err.Error())
+	}
+	c := c20Long{Fill: rapid.SampledFrom(c20Fills()).Draw(t, "fill"), Tag: rapid.StringMatching(`[a-z]{6}`).Draw(t, "tag")}
+	c.Sentinels = []string{""}
+	for i := 0; i < rapid.IntRange(1, 6).Draw(t, "nsent"); i++ {
+		switch rapid.IntRange(0, 3).Draw(t, "sk") {
+		case 0:
+			c.Sentinels = append(c.Sentinels, rapid.SampledFrom(lists.PluralIrregular).Draw(t, "w"))
+		case 1:
+			c.Sentinels = append(c.Sentinels, rapid.SampledFrom([]string{" ", "\x00", "a", "s", "-", "é"}).Draw(t, "w"))
+		case 2:
+			c.Sentinels = append(c.Sentinels, genC20Prefix(t)+rapid.SampledFrom(lists.SingularIrregular).Draw(t, "w"))
+		default:
+			c.Sentinels = append(c.Sentinels, rapid.StringMatching(`[a-z]{1,8}`).Draw(t, "w"))
+		}
+	}
+	return c
+}
+
+// c20Fills: how many other distinct inputs lie between the two askings (cache sizes are typically powers of two)
+func c20Fills() []int {
+	if os.Getenv("VT_TIER") == "thorough" {
+		return []int{1100, 4200, 5000, 9000, 17000}
+	}
+	return []int{4200, 4500, 5000}
+}
+
+func oracleC20Long(c c20Long) error {
+	type pair struct{ p, s string }
+	ask := func() ([]pair, error) {
+		out := make([]pair, len(c.Sentinels))
+		for i, w := range c.Sentinels {
+			p, err := callInflect("Pluralize", inflector.Pluralize, w)
+			if err != nil {
+				return nil, err
+			}
+			s, err := callInflect("Singularize", inflector.Singularize, w)
+			if err != nil {
+				return nil, err
+			}
+			out[i] = pair{p, s}
+		}
+		return out, nil
+	}
+	before, err := ask()
+	if err != nil {
+		return err
+	}
+	for i := 0; i < c.Fill; i++ {
+		w := fmt.Sprintf("%s record%d", c.Tag, i)
+		if _, err := callInflect("Pluralize", inflector.Pluralize, w); err != nil {
+			return err
+		}
+		if _, err := callInflect("Singularize", inflector.Singularize, w); err != nil {
+			return err
+		}
+	}
+	after, err := ask()
+	if err != nil {
+		return err
+	}
+	for i, w := range c.Sentinels {
+		if before[i] != after[i] {
+			return fmt.Errorf("Pluralize/Singularize(%q) = %q/%q, and after %d other distinct inputs in the same process %q/%q: not the same result for the same input on every call",
+				w, before[i].p, before[i].s, c.Fill, after[i].p, after[i].s)
+		}
+	}
+	return nil
+}
+
 func TestC20(t *testing.T) {
 	if os.Getenv("VT_C20_CHILD") != "" {
 		t.Skip("child role")
@@ -508,6 +589,12 @@ func TestC20(t *testing.T) {
 			return []string{fmt.Sprintf("goroutines-%d", c.Goroutines)}
 		},
 		Budget: ev.Budget{Quick: 40, Thorough: 400}, MinNonTrivial: 0.2, ShrinkTime: 30e9,
+	})
+	ev.Search(r, ev.Sub[c20Long]{
+		Name: "long-history", Gen: genC20Long, Oracle: oracleC20Long,
+		NonTrivial: func(c c20Long) bool { return c.Fill >= 4100 },
+		Classes:    func(c c20Long) []string { return []string{fmt.Sprintf("fill-%d", c.Fill)} },
+		Budget:     ev.Budget{Quick: 3, Thorough: 24}, MinNonTrivial: 0.2, ShrinkTime: 20e9,
 	})
 	// every listed word alone and behind "old-" / "a\n": exhaustive over the lists
 	lists, _ := loadC20Lists()
